@@ -556,7 +556,7 @@ def text_fd_to_metric_families(fd):
             elif parts[1] == 'UNIT':
                 if unit is not None:
                     raise ValueError("More than one UNIT for metric: " + line)
-                unit = parts[3]
+                unit = _unescape_help(parts[3])
             else:
                 raise ValueError("Invalid line: " + line)
         else:
